@@ -211,13 +211,14 @@ PLANS['C13'] = {
     'level_note': 'bounded length (6 quick / 8 thorough bytes; 4/5 tokens); L1 only constrains inputs that are JSON with comments, other outputs are compared with the transcription and counted as drift',
 }
 # ------------------------------------------------------------------------------------------------ hooks
+HOOKS_PROOF = {'name': 'hooksproof', 'kind': 'tlaps', 'files': ['HooksCore.tla', 'proof/HooksProof.tla'], 'theorems': ['InitOK', 'Step', 'Safety', 'Invariance']}
 PLANS['C14'] = {
-    'quick': [{'name': 'hooks', 'module': 'Hooks', 'mode': 'hooks', 'invariants': ['NoLibc', 'ReallocOnlyDefault', 'Counterpart', 'Routed', 'Restores'],
+    'quick': [{'name': 'hooks', 'module': 'Hooks', 'mode': 'hooks', 'invariants': ['NoLibc', 'ReallocOnlyDefault', 'Counterpart', 'Routed', 'Restores'], 'properties': ['RefinesCore'],
                'constants': {'MaxHeld': 2, 'Emit': 'TRUE'}, 'timeout': 600},
-              print_run('printQ14', 'quick', failinject=True), parse_run('bigq14', 'bigq', 0, 1000), tree('S3h', 3, 1, 2, '{1}', 'S', 'S'), tree('O3h', 3, 1, 2, '{1}', 'O', 'O'), tree('SV2h', 2, 1, 4, '{1}', 'Str', 'SV', maxfail=3), tree('CF3h', 3, 1, 1, '{1}', 'K', 'CF', maxfail=3)],
-    'thorough': [{'name': 'hooks', 'module': 'Hooks', 'mode': 'hooks', 'invariants': ['NoLibc', 'ReallocOnlyDefault', 'Counterpart', 'Routed', 'Restores'],
+              print_run('printQ14', 'quick', failinject=True), parse_run('bigq14', 'bigq', 0, 1000), tree('S3h', 3, 1, 2, '{1}', 'S', 'S'), tree('O3h', 3, 1, 2, '{1}', 'O', 'O'), tree('SV2h', 2, 1, 4, '{1}', 'Str', 'SV', maxfail=3), tree('CF3h', 3, 1, 1, '{1}', 'K', 'CF', maxfail=3), HOOKS_PROOF],
+    'thorough': [{'name': 'hooks', 'module': 'Hooks', 'mode': 'hooks', 'invariants': ['NoLibc', 'ReallocOnlyDefault', 'Counterpart', 'Routed', 'Restores'], 'properties': ['RefinesCore'],
                   'constants': {'MaxHeld': 3, 'Emit': 'TRUE'}, 'timeout': 600},
-                 print_run('printT14', 'thorough', failinject=True), tree('O3h', 3, 1, 2, '{1}', 'O', 'O')],
+                 print_run('printT14', 'thorough', failinject=True), tree('O3h', 3, 1, 2, '{1}', 'O', 'O'), HOOKS_PROOF],
     'rule': 'every transition of Hooks.tla: hook configuration (default / both custom / only malloc / only free / struct with NULL members / NULL) x call class '
             '(tree-building and editing incl. all utilities, printing with buffer growth and trimming, values held across calls, release) ; plus the print universe with every allocation request refused; '
             'non-trivial = the call makes allocator requests; distinct by construction',
@@ -608,7 +609,31 @@ def run_tracetree(prop, run, outdir, bins, seed, V, REPO):
     return res
 
 
+def run_tlaps(prop, run, outdir, bins, seed, V, REPO):
+    """phase A, unbounded: the TLAPS proof of spec/proof/<module>.tla is re-checked (all obligations, no fingerprint cache)"""
+    import subprocess, re, time, shutil
+    t0 = time.time()
+    res = {'name': run['name'], 'stdout': '', 'stderr': '', 'rc': 0, 'states': 0, 'transitions': 0, 'stats': {}, 'samples': [], 'tlc_error': None}
+    work = os.path.join(outdir, 'tlaps-' + run['name'])
+    shutil.rmtree(work, ignore_errors=True); os.makedirs(work)
+    for f in run['files']:
+        shutil.copy(os.path.join(V, 'spec', f), work)
+    r = subprocess.run('cd %s && timeout 900 tlapm --nofp --threads 4 %s 2>&1' % (work, os.path.basename(run['files'][-1])), shell=True, capture_output=True, text=True)
+    open(os.path.join(outdir, run['name'] + '.tlapm.out'), 'w').write(r.stdout)
+    m = re.search(r'All (\d+) obligations? proved', r.stdout)
+    if m:
+        res['stats'] = {'cases': 0, 'obligations_proved': int(m.group(1)), 'theorems': run.get('theorems', [])}
+        res['samples'] = ['TLAPS: all %s obligations of %s proved (%s)' % (m.group(1), run['files'][-1], ', '.join(run.get('theorems', [])))]
+    else:
+        res['tlc_error'] = 'TLAPS proof of %s not re-established: %s' % (run['files'][-1], ' '.join(r.stdout.split())[-300:])
+    shutil.rmtree(work, ignore_errors=True)
+    res['wall_s'] = round(time.time() - t0, 1)
+    return res
+
+
 def run_custom(kind, prop, run, outdir, bins, seed, V, REPO):
+    if kind == 'tlaps':
+        return run_tlaps(prop, run, outdir, bins, seed, V, REPO)
     if kind == 'tracetree':
         return run_tracetree(prop, run, outdir, bins, seed, V, REPO)
     if kind == 'c20':
